@@ -22,7 +22,38 @@ type Property struct {
 
 var registry = map[string]*Property{}
 
-func register(p *Property) { registry[p.ID] = p }
+func register(p *Property) {
+	run := p.Run
+	id := p.ID
+	p.Run = func(c *eng.Ctx) {
+		run(c)
+		// shared: error gates in the files of package server the property is anchored in (R01.13, server part)
+		if files := anchorFilesInServer[id]; len(files) > 0 {
+			c.Rule("R01.13", "K1")
+			ruleServerErrorGates(c, files...)
+		}
+	}
+	registry[p.ID] = p
+}
+
+// anchorFilesInServer: the files of package server each property's anchors name (properties.jsonl, anchors.files).
+var anchorFilesInServer = map[string][]string{
+	"C02": {"partition.go", "replicator.go", "metadata.go", "failover.go", "fsm.go"},
+	"C03": {"partition.go"},
+	"C04": {"partition.go", "replicator.go", "api.go"},
+	"C06": {"fsm.go", "metadata.go", "stream.go", "partition.go", "groups.go"},
+	"C07": {"metadata.go", "failover.go", "fsm.go", "partition.go", "replicator.go"},
+	"C10": {"partition.go", "api.go"},
+	"C11": {"cursors.go", "api.go", "partition.go"},
+	"C12": {"groups.go", "metadata.go", "fsm.go"},
+	"C13": {"partition.go", "api.go"},
+	"C14": {"partition.go", "propagation.go", "server.go", "raft.go", "api.go"},
+	"C15": {"api.go", "authz.go", "server.go", "signal.go", "cursors.go"},
+	"C16": {"partition.go", "api.go", "config.go"},
+	"C17": {"partition.go", "api.go"},
+	"C18": {"activity.go", "fsm.go", "server.go", "raft.go"},
+	"C19": {"server.go", "config.go"},
+}
 
 // Get returns a property by id.
 func Get(id string) *Property { return registry[id] }
